@@ -50,11 +50,11 @@ func (c *Canon) termD(v ssa.Value, d int) string {
 	c.stack[v] = true
 	s := c.render(v, d)
 	delete(c.stack, v)
-	if len(s) > 220 {
+	if len(s) > 420 {
 		h := sha1.Sum([]byte(s))
 		rs := []rune(s)
-		if len(rs) > 90 {
-			rs = rs[:90]
+		if len(rs) > 200 {
+			rs = rs[:200]
 		}
 		cyc := ""
 		if strings.Contains(s, "↺") {
@@ -176,6 +176,9 @@ func (c *Canon) render(v ssa.Value, d int) string {
 		if n == 1 {
 			return "&{" + c.termD(st.Val, d+1) + "}"
 		}
+		if lit, ok := c.compositeLit(v, d); ok {
+			return lit
+		}
 		if v.Comment != "" {
 			return "&" + v.Comment
 		}
@@ -204,8 +207,14 @@ func (c *Canon) render(v ssa.Value, d int) string {
 				return c.termD(x, d+1)
 			case *ssa.Alloc:
 				t := c.termD(x, d)
+				if t == "↺" {
+					return "↺"
+				}
 				if strings.HasPrefix(t, "&{") && strings.HasSuffix(t, "}") {
 					return t[2 : len(t)-1]
+				}
+				if strings.HasPrefix(t, "&") && strings.HasSuffix(t, "}") && strings.Contains(t, "{") {
+					return t[1:]
 				}
 				if x.Comment != "" {
 					return x.Comment
@@ -284,6 +293,9 @@ func (c *Canon) render(v ssa.Value, d int) string {
 		walk = func(ph *ssa.Phi) {
 			for _, e := range ph.Edges {
 				if p2, ok := e.(*ssa.Phi); ok {
+					if p2 == v && ph == v {
+						set["↺="] = true // some back edge leaves the value unchanged
+					}
 					if !seenPhi[p2] {
 						seenPhi[p2] = true
 						walk(p2)
@@ -601,4 +613,45 @@ func (c *Canon) itePhi(v *ssa.Phi, d int) (string, bool) {
 		t, e = e, t
 	}
 	return "ite(" + c.condAtom(iff.Cond, true) + "; " + c.termD(t, d+1) + "; " + c.termD(e, d+1) + ")", true
+}
+
+// compositeLit renders a local struct/array built field by field (a composite
+// literal) with its contents: &T{f:v, ...}. Only when every use of the alloc is
+// a field/element address stored to at most once, a load, or passing the value on.
+func (c *Canon) compositeLit(a *ssa.Alloc, d int) (string, bool) {
+	pt, ok := a.Type().(*types.Pointer)
+	if !ok {
+		return "", false
+	}
+	st, ok := pt.Elem().Underlying().(*types.Struct)
+	if !ok {
+		return "", false
+	}
+	vals := map[int]string{}
+	for _, ref := range *a.Referrers() {
+		fa, ok := ref.(*ssa.FieldAddr)
+		if !ok {
+			continue
+		}
+		for _, r2 := range *fa.Referrers() {
+			if s, ok := r2.(*ssa.Store); ok && s.Addr == ssa.Value(fa) {
+				if _, dup := vals[fa.Field]; dup {
+					vals[fa.Field] = "φ(" + vals[fa.Field] + "|" + c.termD(s.Val, d+1) + ")"
+				} else {
+					vals[fa.Field] = c.termD(s.Val, d+1)
+				}
+			}
+		}
+	}
+	if len(vals) == 0 {
+		return "", false
+	}
+	var parts []string
+	for i := 0; i < st.NumFields(); i++ {
+		if v, ok := vals[i]; ok {
+			parts = append(parts, st.Field(i).Name()+":"+v)
+		}
+	}
+	name := short(pt.Elem().String())
+	return "&" + name + "{" + strings.Join(parts, ", ") + "}", true
 }
